@@ -641,11 +641,11 @@ def stage_sweep(ctx, rec, aead):
             exact = (not gex_old) and is_exact(fam, spec)
             same = W.bound_part(vc) == W.bound_part(vs)
             ctx.note_case(('sweep', kex, tuple(map(str, spec))), nontrivial=True)
-            if (force or len(sweep_cases) < (4000 if thorough else 700)) and (exact or completed):
+            if (force or len(sweep_cases) < (4000 if thorough else 450)) and (exact or completed):
                 sweep_cases.append('(%s, %s, %s, %s)' % (coq_view(vc, 'c'), coq_diffs(vc, vs), cbool(completed), cbool(exact)))
                 sweep_meta.append((kex, spec, completed, same))
             # the bytes each side really hashed, under the edit
-            if force or (len(hcases) < (2500 if thorough else 400) and (spec[0] != 'byte' or completed)
+            if force or (len(hcases) < (2500 if thorough else 260) and (spec[0] != 'byte' or completed)
                          and (thorough or spec[0] != 'kexinit' or rng.random() < 0.3)):
                 for who, v in (('c', vc), ('s', vs)):
                     hc = hash_cases(r, who, v)
